@@ -140,7 +140,9 @@ func v10cJoinPlan() {
 				verif.Assert(v10cKeyOf(keys[0].Evaluator, rec) == keyVal[p], names[s]+"-sorted-on-its-own-key")
 				verif.Assert(((keys[0].Order == order.Desc) != reverse) == desc, names[s]+"-sorted-in-join-direction")
 			}
-			verif.Assert(!nullsFirst, names[s]+"-sort-nulls-last")
+			// the join compares with nulls as the largest key: nulls last when
+			// ascending, first when descending (see O4b for the comparator check)
+			verif.Assert(nullsFirst == desc, names[s]+"-sort-null-placement-is-join-null-placement")
 			// (b) an input the DAG declares ordered in the join's direction is not re-sorted
 			verif.Assert(!declaredInJoinDir, names[s]+"-declared-order-not-resorted")
 		} else {
